@@ -5,7 +5,7 @@ use serde_json::{json, Value};
 fn fvec(v: &Value) -> Vec<f64> { v.as_array().map(|a| a.iter().map(|x| x.as_f64().unwrap()).collect()).unwrap_or_default() }
 fn svec(v: &Value) -> Vec<String> { v.as_array().map(|a| a.iter().map(|x| format!("v{}", x)).collect()).unwrap_or_default() }
 
-fn mk1(v: &Value, share: Option<&Dual>) -> Dual {
+pub fn mk1(v: &Value, share: Option<&Dual>) -> Dual {
     let d = fvec(&v["dual"]);
     match share {
         Some(o) => Dual::clone_from(o, v["real"].as_f64().unwrap(), ndarray::Array1::from_vec(d)),
@@ -17,7 +17,7 @@ fn mk1(v: &Value, share: Option<&Dual>) -> Dual {
         }
     }
 }
-fn mk2(v: &Value, share: Option<&Dual2>) -> Dual2 {
+pub fn mk2(v: &Value, share: Option<&Dual2>) -> Dual2 {
     let d = fvec(&v["dual"]);
     let n = d.len();
     let d2 = fvec(&v["dual2"]);
@@ -31,11 +31,11 @@ fn mk2(v: &Value, share: Option<&Dual2>) -> Dual2 {
         }
     }
 }
-fn out1(d: &Dual) -> Value {
+pub fn out1(d: &Dual) -> Value {
     use rateslib::dual::{Vars, Gradient1};
     json!({"real": d.real(), "vars": d.vars().iter().cloned().collect::<Vec<String>>(), "dual": d.dual().to_vec()})
 }
-fn out2(d: &Dual2) -> Value {
+pub fn out2(d: &Dual2) -> Value {
     use rateslib::dual::{Vars, Gradient1, Gradient2};
     json!({"real": d.real(), "vars": d.vars().iter().cloned().collect::<Vec<String>>(), "dual": d.dual().to_vec(),
            "dual2": d.dual2().iter().cloned().collect::<Vec<f64>>()})
@@ -112,6 +112,45 @@ pub fn run(sc: &Value) -> Value {
                     json!({"terms": t, "ab_g1": ab.gradient1(req.clone()).to_vec(), "ab_g2": ab.gradient2(req).iter().cloned().collect::<Vec<f64>>()})
                 }
                 _ => json!({"error": "dual_grad variant"}),
+            }
+        }
+        "dual_cmp" => {
+            // a / b are dual numbers or {"f64": x}
+            let af = sc["a"].get("f64").and_then(|x| x.as_f64());
+            let bf = sc["b"].get("f64").and_then(|x| x.as_f64());
+            fn enc(o: Option<std::cmp::Ordering>) -> Value { match o { None => json!(null), Some(x) => json!(x as i32) } }
+            macro_rules! cmpall { ($x:expr, $y:expr) => { json!({"partial_cmp": enc($x.partial_cmp(&$y)), "lt": $x < $y, "le": $x <= $y, "gt": $x > $y, "ge": $x >= $y}) } }
+            if !two {
+                match (af, bf) {
+                    (None, None) => { let a = mk1(&sc["a"], None); let b = mk1(&sc["b"], None); cmpall!(a, b) }
+                    (None, Some(f)) => { let a = mk1(&sc["a"], None); cmpall!(a, f) }
+                    (Some(f), None) => { let b = mk1(&sc["b"], None); cmpall!(f, b) }
+                    _ => panic!("f64 cmp f64"),
+                }
+            } else {
+                match (af, bf) {
+                    (None, None) => { let a = mk2(&sc["a"], None); let b = mk2(&sc["b"], None); cmpall!(a, b) }
+                    (None, Some(f)) => { let a = mk2(&sc["a"], None); cmpall!(a, f) }
+                    (Some(f), None) => { let b = mk2(&sc["b"], None); cmpall!(f, b) }
+                    _ => panic!("f64 cmp f64"),
+                }
+            }
+        }
+        "dual_sum" => {
+            let terms = sc["terms"].as_array().unwrap();
+            if !two { let v: Vec<Dual> = terms.iter().map(|t| mk1(t, None)).collect(); out1(&v.into_iter().sum::<Dual>()) }
+            else { let v: Vec<Dual2> = terms.iter().map(|t| mk2(t, None)).collect(); out2(&v.into_iter().sum::<Dual2>()) }
+        }
+        "dual_identity" => {
+            use num_traits::{One, Zero};
+            if !two {
+                let a = mk1(&sc["a"], None);
+                json!({"zero_plus": out1(&(Dual::zero() + &a)), "plus_zero": out1(&(&a + Dual::zero())), "one_times": out1(&(Dual::one() * &a)),
+                       "times_one": out1(&(&a * Dual::one())), "is_zero": a.is_zero()})
+            } else {
+                let a = mk2(&sc["a"], None);
+                json!({"zero_plus": out2(&(Dual2::zero() + &a)), "plus_zero": out2(&(&a + Dual2::zero())), "one_times": out2(&(Dual2::one() * &a)),
+                       "times_one": out2(&(&a * Dual2::one())), "is_zero": a.is_zero()})
             }
         }
         "dual_eq" => {
